@@ -8,6 +8,8 @@ def expr_of(body, op, depth=0):
        | ('bin', op, a, b) | ('un', op, a) | ('cast', a, to) | ('call', callee, [args]) | ('unknown',)"""
     if op[0] == "k":
         c = op_const(op)
+        if c[1] is None and len(op) > 3:
+            return ("const", c[0], None, op[3])
         return ("const", c[0], c[1])
     p = op_place(op)
     return place_expr(body, p, depth)
@@ -37,6 +39,15 @@ def place_expr(body, p, depth=0):
             return ("unknown",)
     root = body.root_place(p)
     projs = tuple(tuple(e) if isinstance(e, list) else e for e in root[1])
+    # field of a tuple/struct aggregate built once: (a, b).1 == b
+    if projs and isinstance(projs[0], tuple) and projs[0][0] == "f" and not (0 < root[0] <= body.argc):
+        sd = body.single_def(root[0])
+        if sd is not None and not isinstance(sd[2], Term) and sd[2][0] == "agg" and sd[2][1][0] in ("tuple", "adt") \
+                and projs[0][1] < len(sd[2][2]) and (sd[2][1][0] == "tuple" or True):
+            inner = expr_of(body, sd[2][2][projs[0][1]], depth + 1)
+            if len(projs) == 1:
+                return inner
+            return ("proj", inner, projs[1:])
     base = place_expr(body, [root[0], []], depth + 1) if root[0] != l or not projs else \
         (("param", l) if 0 < l <= body.argc else _local_or_call(body, l, depth))
     return ("proj", base, projs)
